@@ -21,6 +21,7 @@ THEOREMS = [_NS + t for t in (
     # tier 3, range compression in context: constant runs of any scalar type and int32 arithmetic runs among
     # uncompressed scalar values, in any number and order (the cell-level theorem and the statement-level one)
     "runs_roundtrip_cells", "print_scan_roundtrip_runs_partial",
+    "runs_message_roundtrip_cells", "message_roundtrip_runs_partial",
     # when rtosc_convert_to_range finds a run that is followed by further values (the run hypotheses from the values)
     "convertToRange_crun_of_next", "convertToRange_irun_of_next",
     "PrinterSegments.crun_of_next", "PrinterSegments.irun_of_next",
@@ -71,7 +72,8 @@ ASSUMPTIONS = [
     "float-representable fraction the oracle demands the printed precision (scanned and original less than one unit "
     "of the last printed digit + 2^-23 s apart, seconds included), which is weaker than the statement's 'exactly' "
     "and the most a text without the exact value can give (fixes C10-16, C10-17 were found this way)",
-    "range compression is proved (print_scan_roundtrip_runs_partial) for every list of scalar values in which compressed "
+    "range compression is proved (print_scan_roundtrip_runs_partial; message_roundtrip_runs_partial for whole "
+    "messages) for every list of scalar values in which compressed "
     "runs stand among uncompressed values — before, between and behind them, any number of runs in any order, also "
     "directly adjacent runs: constant runs of n >= 5 copies of any scalar of the domain (nxA), and int32 arithmetic runs "
     "with any step, printed as 'a ... z' when the step is +-1 and the value in front is of another type or equal to a, "
@@ -88,7 +90,7 @@ ASSUMPTIONS = [
     "special cases of a list that is exactly one run, with the run conditions stated on the values only",
     "NOT proved, covered by correspondence + round-trip oracle only: compressed runs inside arrays and lists that "
     "contain arrays next to compressed runs, arithmetic runs of 'h' 'c' 'T' 'F' values, runs of arrays, nested arrays, "
-    "the whole-message form of lists with compressed runs in context, a midnight time tag anywhere but at the end of "
+    "a midnight time tag anywhere but at the end of "
     "the text, time fractions without lossless mode",
     "the exact printed text is part of the model/implementation comparison (it ties Pretty/Print.lean to the code); a "
     "difference in the text alone, with the round-trip oracle holding, is reported as such (NOTE line, evidence "
@@ -115,9 +117,10 @@ LEVEL_TEXT = ("Lean theorems: print→check→scan is the identity, with printed
               "of scalars in which constant runs of any scalar type (nxA) and int32 arithmetic runs (a ... z / "
               "a b ... z) stand among uncompressed values in any number and order, under exactly the printer's side "
               "conditions (rtosc_convert_to_range finds these runs; overflow and width guards), the scanned ranges "
-              "being compared by their expansion (tier 3, print_scan_roundtrip_runs_partial); the rest — runs inside "
-              "arrays or next to arrays, 'h'/'c'/boolean arithmetic runs, runs of arrays, whole messages with runs "
-              "in context, time fractions without lossless mode — is checked by exact model/implementation "
+              "being compared by their expansion, for lists and whole messages (tier 3, print_scan_roundtrip_runs_partial, "
+              "message_roundtrip_runs_partial); the rest — runs inside "
+              "arrays or next to arrays, 'h'/'c'/boolean arithmetic runs, runs of arrays, "
+              "time fractions without lossless mode — is checked by exact model/implementation "
               "correspondence and by the round-trip oracle evaluated on the implementation, not proved")
 LEVEL_NOTE = ("partial: range compression inside or next to arrays, arithmetic runs of types other than int32, runs of "
               "arrays, and time fractions without lossless mode, are correspondence + oracle only")
